@@ -1500,3 +1500,77 @@ Proof.
   rewrite Hstep. cbn [bind]. rewrite set_log_same.
   fold (auto_leave_cond r' (applied (r_log r')) app). rewrite Hcond2. reflexivity.
 Qed.
+
+(* ------------------------------------------------------------------ *)
+(* 1 (assembled): the complete characterisation of the proposal filter *)
+Theorem propose_filter r ents info i r' ents' ok :
+  filter_conf_changes r ents info i = (r', ents', ok) ->
+  length ents' = length ents /\
+  r' = r <| r_pending_conf_index := r_pending_conf_index r' |> /\
+  (ok = false <->
+     exists k e, nth_error ents k = Some e /\ is_conf_entry e = true /\ nth k info 0 = 1) /\
+  (ok = true ->
+     filt_state r ents info i (length ents) = r' /\
+     forall k e, nth_error ents k = Some e ->
+       let rk := filt_state r ents info i k in
+       let rk1 := filt_state r ents info i (S k) in
+       (is_conf_entry e = false -> nth_error ents' k = Some e /\ rk1 = rk) /\
+       (is_conf_entry e = true ->
+          nth k info 0 <> 1 /\
+          ((cc_allowed rk (nth k info 0) /\ nth_error ents' k = Some e /\
+            rk1 = rk <| r_pending_conf_index := last_index (r_log r) + i + N.of_nat k + 1 |>) \/
+           (~ cc_allowed rk (nth k info 0) /\ nth_error ents' k = Some entry_default /\ rk1 = rk)))).
+Proof.
+  intros H. split; [eapply filter_length; exact H|]. split; [eapply filter_frame; exact H|].
+  split; [eapply filter_ok_false_iff; exact H|].
+  intros ->. split; [eapply filt_state_all; exact H|]. eapply filter_pointwise; exact H.
+Qed.
+
+(* ------------------------------------------------------------------ *)
+(* concrete states for the non-vacuity examples of Props/C09.v *)
+Module C09Samples.
+
+Definition e_norm (t i : N) : entry := mkEntry EntryNormal t i [] [].
+Definition e_cc (t i : N) : entry := mkEntry EntryConfChangeV2 t i [7] [].
+
+(* three stored entries 1..3 (entry 3 is [e3]), nothing unstable *)
+Definition s_log (e3 : entry) (cm ap : N) : raft_log :=
+  mkLog (mkMem (mkHS 2 1 cm) (mkCS [1; 2; 3] [] [] [] false) [e_norm 1 1; e_norm 1 2; e3] 0 0
+               false false None)
+        (mkUn None [] 0 4) cm 3 ap 0.
+
+Definition s_pr (m : N) : progress := mkPr m (m + 1) Replicate false 0 0 true (Inflights.new 4) 0 0.
+
+Definition s_prs (c : conf) : Raft.tracker :=
+  mkTr [(1, s_pr 3); (2, s_pr 3); (3, s_pr 3)] c [] 4 false.
+
+Definition c3 : conf := mkConf [1; 2; 3] [] [] [] false.
+(* joint configuration {1,2,3} -> {1,2}, auto-leave *)
+Definition c3j : conf := mkConf [1; 2] [1; 2; 3] [] [] true.
+(* node 1 is a learner *)
+Definition c3l : conf := mkConf [2; 3] [] [1] [] false.
+
+Definition s_raft (st : role) (l : raft_log) (c : conf) (pending : N) (promotable : bool) (lead : N)
+  : raft :=
+  mkRaft 2 1 1 [] l 4 u64_max 0 st promotable lead None pending (ro_new 0) 0 0 false false false
+         false false 1 10 15 10 20 0%Z u64_max 0 3 u64_max (s_prs c) [] [12; 13; 14] None.
+
+(* a leader, everything applied *)
+Definition s_leader : raft := s_raft Leader (s_log (e_norm 2 3) 3 3) c3 0 true 1.
+(* a candidate about to win *)
+Definition s_candidate : raft := s_raft Candidate (s_log (e_norm 1 3) 2 2) c3 0 true 0.
+(* a follower whose committed entry 3 is an unapplied membership change *)
+Definition s_follower_cc : raft := s_raft Follower (s_log (e_cc 1 3) 3 2) c3 0 true 2.
+(* the same with a normal entry *)
+Definition s_follower : raft := s_raft Follower (s_log (e_norm 1 3) 3 2) c3 0 true 2.
+(* a learner whose election timer is about to fire *)
+Definition s_learner : raft := s_raft Follower (s_log (e_norm 1 3) 3 3) c3l 0 false 2.
+(* a leader in an auto-leave joint configuration whose enter-joint entry 3 is being applied *)
+Definition s_leader_joint : raft := s_raft Leader (s_log (e_cc 2 3) 3 2) c3j 3 true 1.
+
+(* a proposal: two membership changes and a normal entry *)
+Definition s_prop : msg :=
+  msg_default <| m_type := MsgPropose |> <| m_from := 1 |>
+    <| m_entries := [e_cc 0 0; e_cc 0 0; e_norm 0 0] |> <| m_ccinfo := [3; 3; 0] |>.
+
+End C09Samples.
